@@ -52,6 +52,7 @@ package leveldbstorage
 //@   ensures [open] st.prefix != nil && len(b) >= 1 ==> sreg(r0) != 0
 //@   ensures [prefixed] len(r0) > 0 ==> len(r0) == len(st.prefix) + len(b) && len(b) >= 1 && forall(i, 0 <= i && i < len(st.prefix) ==> r0[i] == st.prefix[i]) && forall(i, 0 <= i && i < len(b) ==> r0[len(st.prefix) + i] == b[i])
 
+//@ writers PrefixStorage.prefixlen (C25) NewPrefixStorage Close
 //@ func (*PrefixStorage).origkey
 //@   prop C25
 //@   requires st != nil && st.prefixlen >= 0
@@ -115,10 +116,33 @@ package leveldbstorage
 //@   ensures bdel == old(bdel) + 1
 //@   callsite Delete requires len(a0) >= len(b.prefix) && forall(q, 0 <= q && q < len(b.prefix) ==> a0[q] == b.prefix[q]) && forall(q, 0 <= q && q < len(key) ==> a0[len(b.prefix) + q] == key[q])
 
+// removing the whole prefix: only an open storage (a closed one has no prefix,
+// and the empty prefix covers every key of the underlying storage)
+//@ func RemoveByPrefix
+//@   trusted
+//@   modifies *
+//@ func (*PrefixStorage).Remove
+//@   prop C25
+//@   requires st != nil
+//@   modifies *
+//@   callsite RemoveByPrefix requires a1 != nil && a1 == st.prefix
+
 // not verified here (range rewriting over goleveldb iterators, batches): trusted
 // as seen by the callers in isaac/database
-//@ func (*PrefixStorage).Iter
+//@ package github.com/syndtr/goleveldb/leveldb/util
+//@ func BytesPrefix
 //@   trusted
+//@   ensures r0 != nil && len(r0.Start) < 1099511627776 && len(r0.Limit) < 1099511627776
+//@ package github.com/spikeekips/mitum/storage/leveldb
+// (the callers in isaac/database see Iter as a traversal; its body is checked
+// for one thing: a closed storage, which has no prefix, is not iterated)
+//@ func (*PrefixStorage).Iter
+//@   prop C25
+//@   requires st != nil && st.Storage != nil && callback != nil && st.prefixlen >= 0 && len(st.prefix) < 1099511627776 && (r != nil ==> len(r.Start) < 1099511627776 && len(r.Limit) < 1099511627776)
+//@   hof Iter#0 loop invariant st.prefixlen >= 0
+//@   callsite BytesPrefix requires a0 != nil
+// (prefixlen is only ever set to a length or to zero: see the writers clause)
+//@   fnparam callback ensures st.prefixlen >= 0
 //@   loops callback(ik, ib) -> keep, ierr
 //@   where len(ik) < 1099511627776
 //@   until !keep || ierr != nil
